@@ -1,8 +1,12 @@
 /-
   Cover property of the atom extraction model (Model/ReAtoms.lean): whatever atoms `_yr_atoms_choose` picks — for EVERY
-  quality function — every match of the expression contains an occurrence of one of them (byte mode, case-sensitive).
-    `AtomAt buf a s`  : the masked atom `a` occurs in the buffer at `s` (every node: byte & mask = value)
+  quality function — every match of the expression contains an occurrence of one of them, at the positions of the nodes the
+  match runs through.
+    `Rd`              : how the nodes of an atom sit in the buffer (character size, what "node n sits at position s" means —
+                        byte / wide, case folding, and membership of (node id, position) in the trace of the match)
+    `AtomAt R a s`    : the masked atom `a` sits at `s`
     `Sat`             : a tree node is witnessed inside a region of the buffer (OR: every child; AND: some child)
+    `Tr`              : a match together with its trace: which leaf was matched at which position
     `walk_inv`        : walking an expression along one of its matches keeps "every appended child is witnessed, the
                         pending run ends at the current position"
 -/
@@ -11,69 +15,73 @@ import YaraModel.Lemmas.ReAlgebra
 namespace YaraModel.ReAtoms
 open YaraModel.Re
 
-/-- the masked atom occurs at byte position `s` -/
-def AtomAt (buf : Bytes) : Atom → Nat → Prop
+structure Rd where
+  cs : Nat
+  ok : Node → Nat → Prop
+
+/-- the masked atom sits at byte position `s` -/
+def AtomAt (R : Rd) : Atom → Nat → Prop
   | [], _ => True
-  | n :: t, s => (∃ c, buf[s]? = some c ∧ c &&& n.mask = n.byte) ∧ AtomAt buf t (s + 1)
+  | n :: t, s => R.ok n s ∧ AtomAt R t (s + R.cs)
+
+/-- bytes an atom spans -/
+def span (R : Rd) (a : Atom) : Nat := a.length * R.cs
 
 section
-variable {buf : Bytes}
+variable {R : Rd}
 
-theorem atomAt_append {a b : Atom} {s : Nat} : AtomAt buf (a ++ b) s ↔ AtomAt buf a s ∧ AtomAt buf b (s + a.length) := by
+theorem span_nil : span R [] = 0 := by simp [span]
+theorem span_cons (n : Node) (t : Atom) : span R (n :: t) = R.cs + span R t := by
+  simp only [span, List.length_cons]; rw [Nat.add_mul]; omega
+theorem span_append (a b : Atom) : span R (a ++ b) = span R a + span R b := by
+  simp only [span, List.length_append]; rw [Nat.add_mul]
+theorem span_take_drop (a : Atom) (i : Nat) : span R (a.take i) + span R (a.drop i) = span R a := by
+  rw [← span_append, List.take_append_drop]
+theorem span_take_le (a : Atom) (n : Nat) : span R (a.take n) ≤ span R a := by
+  have := span_take_drop (R := R) a n; omega
+
+theorem atomAt_append {a b : Atom} {s : Nat} : AtomAt R (a ++ b) s ↔ AtomAt R a s ∧ AtomAt R b (s + span R a) := by
   induction a generalizing s with
-  | nil => simp [AtomAt]
+  | nil => simp [AtomAt, span_nil]
   | cons n t ih =>
-    simp only [List.cons_append, AtomAt, List.length_cons, ih]
-    have : s + 1 + t.length = s + (t.length + 1) := by omega
+    simp only [List.cons_append, AtomAt, ih, span_cons]
+    have : s + R.cs + span R t = s + (R.cs + span R t) := by omega
     rw [this]
     constructor
     · rintro ⟨h1, h2, h3⟩; exact ⟨⟨h1, h2⟩, h3⟩
     · rintro ⟨⟨h1, h2⟩, h3⟩; exact ⟨h1, h2, h3⟩
 
-theorem atomAt_drop {a : Atom} {s : Nat} (h : AtomAt buf a s) : ∀ i, AtomAt buf (a.drop i) (s + i) := by
-  induction a generalizing s with
-  | nil => intro i; simp [AtomAt]
-  | cons n t ih =>
-    intro i
-    cases i with
-    | zero => simpa using h
-    | succ j =>
-      simp only [List.drop_succ_cons]
-      have := ih h.2 j
-      have e : s + 1 + j = s + (j + 1) := by omega
-      rwa [e] at this
+theorem atomAt_drop {a : Atom} {s : Nat} (h : AtomAt R a s) (i : Nat) : AtomAt R (a.drop i) (s + span R (a.take i)) := by
+  have := (atomAt_append (R := R) (a := a.take i) (b := a.drop i) (s := s)).1 (by rw [List.take_append_drop]; exact h)
+  exact this.2
 
-theorem atomAt_take {a : Atom} {s : Nat} (h : AtomAt buf a s) : ∀ n, AtomAt buf (a.take n) s := by
-  induction a generalizing s with
-  | nil => intro n; simp [AtomAt]
-  | cons x t ih =>
-    intro n
-    cases n with
-    | zero => simp [AtomAt]
-    | succ j => simp only [List.take_succ_cons, AtomAt]; exact ⟨h.1, ih h.2 j⟩
+theorem atomAt_take {a : Atom} {s : Nat} (h : AtomAt R a s) (n : Nat) : AtomAt R (a.take n) s := by
+  have := (atomAt_append (R := R) (a := a.take n) (b := a.drop n) (s := s)).1 (by rw [List.take_append_drop]; exact h)
+  exact this.1
 
-/-- the atom occurs inside the region [lo, hi) -/
-def Occurs (buf : Bytes) (a : Atom) (lo hi : Nat) : Prop := ∃ s, lo ≤ s ∧ s + a.length ≤ hi ∧ AtomAt buf a s
+/-- the atom sits inside the region [lo, hi) -/
+def Occurs (R : Rd) (a : Atom) (lo hi : Nat) : Prop := ∃ s, lo ≤ s ∧ s + span R a ≤ hi ∧ AtomAt R a s
 
-theorem Occurs.mono {a : Atom} {lo hi lo' hi' : Nat} (h : Occurs buf a lo hi) (h1 : lo' ≤ lo) (h2 : hi ≤ hi') : Occurs buf a lo' hi' := by
+theorem Occurs.mono {a : Atom} {lo hi lo' hi' : Nat} (h : Occurs R a lo hi) (h1 : lo' ≤ lo) (h2 : hi ≤ hi') : Occurs R a lo' hi' := by
   obtain ⟨s, a1, a2, a3⟩ := h
   exact ⟨s, by omega, by omega, a3⟩
 
-theorem occurs_sub {a : Atom} {lo hi : Nat} (h : Occurs buf a lo hi) (i n : Nat) : Occurs buf ((a.drop i).take n) lo hi := by
+theorem occurs_nil {lo hi : Nat} (h : lo ≤ hi) : Occurs R [] lo hi := ⟨lo, Nat.le_refl _, by rw [span_nil]; omega, trivial⟩
+
+theorem occurs_sub {a : Atom} {lo hi : Nat} (h : Occurs R a lo hi) (i n : Nat) : Occurs R ((a.drop i).take n) lo hi := by
   obtain ⟨s, a1, a2, a3⟩ := h
-  by_cases hi' : i ≤ a.length
-  · refine ⟨s + i, by omega, ?_, atomAt_take (atomAt_drop a3 i) n⟩
-    simp only [List.length_take, List.length_drop]; omega
-  · have : a.drop i = [] := List.drop_eq_nil_of_le (by omega)
-    rw [this]
-    exact ⟨s, a1, by simp; omega, by simp [AtomAt]⟩
+  refine ⟨s + span R (a.take i), by omega, ?_, atomAt_take (atomAt_drop a3 i) n⟩
+  have h1 := span_take_le (R := R) (a.drop i) n
+  have h2 := span_take_drop (R := R) a i
+  omega
 
 /-- trimming keeps an occurrence -/
-theorem occurs_trim {a : Atom} {lo hi : Nat} (h : Occurs buf a lo hi) : Occurs buf (trim a).2 lo hi := by
+theorem occurs_trim {a : Atom} {lo hi : Nat} (h : Occurs R a lo hi) : Occurs R (trim a).2 lo hi := by
+  have hle : lo ≤ hi := by obtain ⟨s, a1, a2, _⟩ := h; omega
   unfold trim
   simp only
   split
-  · obtain ⟨s, a1, a2, _⟩ := h; exact ⟨s, a1, by simp; omega, by simp [AtomAt]⟩
+  · exact occurs_nil hle
   · split
     · have := occurs_sub (occurs_sub h ((a.takeWhile (·.mask == 0)).length)
         ((a.drop (a.takeWhile (·.mask == 0)).length).length - ((a.drop (a.takeWhile (·.mask == 0)).length).reverse.takeWhile (·.mask == 0)).length)) 0 1
@@ -82,27 +90,27 @@ theorem occurs_trim {a : Atom} {lo hi : Nat} (h : Occurs buf a lo hi) : Occurs b
 
 /-! ### witnessed trees, and the choice -/
 mutual
-def Sat (buf : Bytes) (lo hi : Nat) : Tree → Prop
-  | .leaf a => Occurs buf a lo hi
-  | .or kids => SatAll buf lo hi kids
-  | .and kids => SatAny buf lo hi kids
-def SatAll (buf : Bytes) (lo hi : Nat) : List Tree → Prop
+def Sat (R : Rd) (lo hi : Nat) : Tree → Prop
+  | .leaf a => Occurs R a lo hi
+  | .or kids => SatAll R lo hi kids
+  | .and kids => SatAny R lo hi kids
+def SatAll (R : Rd) (lo hi : Nat) : List Tree → Prop
   | [] => True
-  | t :: ts => Sat buf lo hi t ∧ SatAll buf lo hi ts
-def SatAny (buf : Bytes) (lo hi : Nat) : List Tree → Prop
+  | t :: ts => Sat R lo hi t ∧ SatAll R lo hi ts
+def SatAny (R : Rd) (lo hi : Nat) : List Tree → Prop
   | [] => False
-  | t :: ts => Sat buf lo hi t ∨ SatAny buf lo hi ts
+  | t :: ts => Sat R lo hi t ∨ SatAny R lo hi ts
 end
 
 mutual
-theorem Sat.mono {lo hi lo' hi' : Nat} (h1 : lo' ≤ lo) (h2 : hi ≤ hi') : ∀ (t : Tree), Sat buf lo hi t → Sat buf lo' hi' t
+theorem Sat.mono {lo hi lo' hi' : Nat} (h1 : lo' ≤ lo) (h2 : hi ≤ hi') : ∀ (t : Tree), Sat R lo hi t → Sat R lo' hi' t
   | .leaf a, h => by unfold Sat at h ⊢; exact h.mono h1 h2
   | .or kids, h => by unfold Sat at h ⊢; exact SatAll.mono h1 h2 kids h
   | .and kids, h => by unfold Sat at h ⊢; exact SatAny.mono h1 h2 kids h
-theorem SatAll.mono {lo hi lo' hi' : Nat} (h1 : lo' ≤ lo) (h2 : hi ≤ hi') : ∀ (l : List Tree), SatAll buf lo hi l → SatAll buf lo' hi' l
+theorem SatAll.mono {lo hi lo' hi' : Nat} (h1 : lo' ≤ lo) (h2 : hi ≤ hi') : ∀ (l : List Tree), SatAll R lo hi l → SatAll R lo' hi' l
   | [], _ => by unfold SatAll; trivial
   | t :: ts, h => by unfold SatAll at h ⊢; exact ⟨Sat.mono h1 h2 t h.1, SatAll.mono h1 h2 ts h.2⟩
-theorem SatAny.mono {lo hi lo' hi' : Nat} (h1 : lo' ≤ lo) (h2 : hi ≤ hi') : ∀ (l : List Tree), SatAny buf lo hi l → SatAny buf lo' hi' l
+theorem SatAny.mono {lo hi lo' hi' : Nat} (h1 : lo' ≤ lo) (h2 : hi ≤ hi') : ∀ (l : List Tree), SatAny R lo hi l → SatAny R lo' hi' l
   | [], h => by unfold SatAny at h; exact h.elim
   | t :: ts, h => by
     unfold SatAny at h ⊢
@@ -111,7 +119,7 @@ theorem SatAny.mono {lo hi lo' hi' : Nat} (h1 : lo' ≤ lo) (h2 : hi ≤ hi') : 
     · exact .inr (SatAny.mono h1 h2 ts h)
 end
 
-theorem satAll_append {lo hi : Nat} {l1 l2 : List Tree} : SatAll buf lo hi (l1 ++ l2) ↔ SatAll buf lo hi l1 ∧ SatAll buf lo hi l2 := by
+theorem satAll_append {lo hi : Nat} {l1 l2 : List Tree} : SatAll R lo hi (l1 ++ l2) ↔ SatAll R lo hi l1 ∧ SatAll R lo hi l2 := by
   induction l1 with
   | nil => simp [SatAll]
   | cons t ts ih => simp only [List.cons_append, SatAll, ih, and_assoc]
@@ -124,7 +132,7 @@ theorem chooseOr_cons (t : Tree) (ts : List Tree) (acc : List Atom) (mx : Int) :
 
 mutual
 /-- a witnessed tree whose chosen quality is positive has a chosen atom that occurs -/
-theorem choose_occurs {lo hi : Nat} : ∀ (t : Tree), Sat buf lo hi t → (choose q t).2 > 0 → ∃ a ∈ (choose q t).1, Occurs buf a lo hi
+theorem choose_occurs {lo hi : Nat} : ∀ (t : Tree), Sat R lo hi t → (choose q t).2 > 0 → ∃ a ∈ (choose q t).1, Occurs R a lo hi
   | .leaf a, hs, hq => by
     unfold choose at hq ⊢
     unfold Sat at hs
@@ -140,8 +148,8 @@ theorem choose_occurs {lo hi : Nat} : ∀ (t : Tree), Sat buf lo hi t → (choos
     unfold choose at hq ⊢
     unfold Sat at hs
     exact chooseAnd_occurs kids [] 255 hs hq
-theorem chooseOr_occurs {lo hi : Nat} : ∀ (kids : List Tree) (acc : List Atom) (mx : Int), SatAll buf lo hi kids →
-    (mx > 0 → ∃ a ∈ acc, Occurs buf a lo hi) → (chooseOr q kids acc mx).2 > 0 → ∃ a ∈ (chooseOr q kids acc mx).1, Occurs buf a lo hi
+theorem chooseOr_occurs {lo hi : Nat} : ∀ (kids : List Tree) (acc : List Atom) (mx : Int), SatAll R lo hi kids →
+    (mx > 0 → ∃ a ∈ acc, Occurs R a lo hi) → (chooseOr q kids acc mx).2 > 0 → ∃ a ∈ (chooseOr q kids acc mx).1, Occurs R a lo hi
   | [], acc, mx, _, hacc, hq => by unfold chooseOr at hq ⊢; exact hacc hq
   | t :: ts, acc, mx, hs, hacc, hq => by
     rw [chooseOr_cons] at hq ⊢
@@ -154,8 +162,8 @@ theorem chooseOr_occurs {lo hi : Nat} : ∀ (kids : List Tree) (acc : List Atom)
         exact chooseOr_occurs ts _ _ hs.2 (fun hpos => choose_occurs t hs.1 hpos) hq
       · simp only [hgt, if_false] at hq ⊢
         exact chooseOr_occurs ts acc mx hs.2 hacc hq
-theorem chooseAnd_occurs {lo hi : Nat} : ∀ (kids : List Tree) (acc : List Atom) (mn : Int), SatAny buf lo hi kids →
-    (chooseAnd q kids acc mn).2 > 0 → ∃ a ∈ (chooseAnd q kids acc mn).1, Occurs buf a lo hi
+theorem chooseAnd_occurs {lo hi : Nat} : ∀ (kids : List Tree) (acc : List Atom) (mn : Int), SatAny R lo hi kids →
+    (chooseAnd q kids acc mn).2 > 0 → ∃ a ∈ (chooseAnd q kids acc mn).1, Occurs R a lo hi
   | [], acc, mn, hs, _ => by unfold SatAny at hs; exact hs.elim
   | t :: ts, acc, mn, hs, hq => by
     unfold chooseAnd at hq ⊢
@@ -182,230 +190,6 @@ theorem chooseAnd_ge : ∀ (kids : List Tree) (acc : List Atom) (mn : Int),
     split at h1 <;> omega
 end
 
-/-! ### the walk along a match -/
-/-- state of the walk after the part [p0, cur) of a match: every appended child is witnessed there, the pending run ends at
-    `cur` (or is frozen because the best quality is already maximal), the best atom so far occurs -/
-structure Inv (buf : Bytes) (st : St) (p0 cur : Nat) : Prop where
-  le : p0 ≤ cur
-  kids : SatAll buf p0 cur st.kids
-  recent : (st.recent.length ≤ cur - p0 ∧ AtomAt buf st.recent (cur - st.recent.length)) ∨
-    (255 ≤ st.bestQ ∧ 4 ≤ st.recent.length ∧ Occurs buf st.recent p0 cur)
-  best : Occurs buf st.best p0 cur
-
-theorem Inv.recentOccurs {st : St} {p0 cur : Nat} (h : Inv buf st p0 cur) : Occurs buf st.recent p0 cur := by
-  rcases h.recent with ⟨h1, h2⟩ | ⟨_, _, h3⟩
-  · exact ⟨cur - st.recent.length, by have := h.le; omega, by have := h.le; omega, h2⟩
-  · exact h3
-
-theorem inv_init (p : Nat) : Inv buf {} p p :=
-  ⟨Nat.le_refl _, by simp [SatAll], .inl ⟨by simp, by simp [AtomAt]⟩, ⟨p, Nat.le_refl _, by simp, by simp [AtomAt]⟩⟩
-
-theorem inv_flush {st : St} {p0 cur : Nat} (h : Inv buf st p0 cur) : Inv buf (flush q st) p0 cur := by
-  refine ⟨h.le, ?_, .inl ⟨by simp [flush], by simp [flush, AtomAt]⟩, ⟨p0, Nat.le_refl _, by simp [flush]; exact h.le, by simp [flush, AtomAt]⟩⟩
-  unfold flush
-  simp only
-  split
-  · exact h.kids
-  · rw [satAll_append]
-    refine ⟨h.kids, ?_, trivial⟩
-    unfold Sat
-    split
-    · exact occurs_trim h.recentOccurs
-    · exact h.best
-
-theorem inv_move {st : St} {p0 cur cur' : Nat} (h : Inv buf st p0 cur) (he : st.recent = []) (hle : cur ≤ cur') : Inv buf st p0 cur' := by
-  refine ⟨by have := h.le; omega, SatAll.mono (Nat.le_refl _) hle _ h.kids, .inl ?_, h.best.mono (Nat.le_refl _) hle⟩
-  rw [he]; simp [AtomAt]
-
-theorem inv_addNode {st : St} {p0 cur : Nat} (h : Inv buf st p0 cur) (x : Node) (hx : ∃ c, buf[cur]? = some c ∧ c &&& x.mask = x.byte) :
-    Inv buf (addNode q st x) p0 (cur + 1) := by
-  have hle := h.le
-  unfold addNode
-  by_cases h4 : st.recent.length < 4
-  · simp only [h4, if_true]
-    rcases h.recent with ⟨h1, h2⟩ | ⟨_, h2, _⟩
-    · refine ⟨by omega, SatAll.mono (Nat.le_refl _) (by omega) _ h.kids, .inl ⟨by simp; omega, ?_⟩, h.best.mono (Nat.le_refl _) (by omega)⟩
-      simp only [List.length_append, List.length_cons, List.length_nil]
-      have e1 : cur + 1 - (st.recent.length + (0 + 1)) = cur - st.recent.length := by omega
-      rw [e1, atomAt_append]
-      refine ⟨h2, ?_, trivial⟩
-      have e2 : cur - st.recent.length + st.recent.length = cur := by omega
-      rw [e2]; exact hx
-    · omega
-  · simp only [h4, if_false]
-    by_cases hq : st.bestQ < 255
-    · simp only [hq, if_true]
-      rcases h.recent with ⟨h1, h2⟩ | ⟨h1, _, _⟩
-      · have hocc : Occurs buf (trim st.recent).2 p0 (cur + 1) := (occurs_trim h.recentOccurs).mono (Nat.le_refl _) (by omega)
-        have hrec : (st.recent.drop 1 ++ [x]).length ≤ cur + 1 - p0 ∧ AtomAt buf (st.recent.drop 1 ++ [x]) (cur + 1 - (st.recent.drop 1 ++ [x]).length) := by
-          simp only [List.length_append, List.length_drop, List.length_cons, List.length_nil]
-          refine ⟨by omega, ?_⟩
-          have e1 : cur + 1 - (st.recent.length - 1 + (0 + 1)) = cur - st.recent.length + 1 := by omega
-          rw [e1, atomAt_append]
-          refine ⟨atomAt_drop h2 1, ?_, trivial⟩
-          simp only [List.length_drop]
-          have e2 : cur - st.recent.length + 1 + (st.recent.length - 1) = cur := by omega
-          rw [e2]; exact hx
-        split
-        · exact ⟨by omega, SatAll.mono (Nat.le_refl _) (by omega) _ h.kids, .inl hrec, hocc⟩
-        · exact ⟨by omega, SatAll.mono (Nat.le_refl _) (by omega) _ h.kids, .inl hrec, h.best.mono (Nat.le_refl _) (by omega)⟩
-      · omega
-    · simp only [hq, if_false]
-      exact ⟨by omega, SatAll.mono (Nat.le_refl _) (by omega) _ h.kids,
-        .inr ⟨by omega, by omega, h.recentOccurs.mono (Nat.le_refl _) (by omega)⟩, h.best.mono (Nat.le_refl _) (by omega)⟩
-
-variable {fl : Flags}
-
-theorem and_255 (c : UInt8) : c &&& 0xFF = c := by
-  apply UInt8.eq_of_toBitVec_eq
-  simp only [UInt8.toBitVec_and]
-  have : (255 : UInt8).toBitVec = BitVec.allOnes 8 := by decide
-  rw [this, BitVec.and_allOnes]
-
-/-- a child witnessed in the part of the match that follows is appended, then the pending run is flushed -/
-theorem inv_flush_with {st : St} {p0 cur q1 : Nat} (h : Inv buf st p0 cur) (hle : cur ≤ q1) (T : Tree) (hT : Sat buf p0 q1 T) :
-    Inv buf (flush q { st with kids := st.kids ++ [T] }) p0 q1 := by
-  have h1 := h.le
-  refine ⟨by omega, ?_, .inl ⟨by simp [flush], by simp [flush, AtomAt]⟩, ⟨p0, Nat.le_refl _, by simp [flush]; omega, by simp [flush, AtomAt]⟩⟩
-  unfold flush
-  simp only
-  have hk : SatAll buf p0 q1 (st.kids ++ [T]) := by
-    rw [satAll_append]; exact ⟨SatAll.mono (Nat.le_refl _) hle _ h.kids, hT, trivial⟩
-  split
-  · exact hk
-  · rw [satAll_append]
-    refine ⟨hk, ?_, trivial⟩
-    unfold Sat
-    split
-    · exact (occurs_trim h.recentOccurs).mono (Nat.le_refl _) hle
-    · exact h.best.mono (Nat.le_refl _) hle
-
-/-- the pending run is flushed, then the match goes on to `q1` through something that is not part of any run -/
-theorem inv_flush_move {st : St} {p0 cur q1 : Nat} (h : Inv buf st p0 cur) (hle : cur ≤ q1) : Inv buf (flush q st) p0 q1 :=
-  inv_move (inv_flush q h) (by simp [flush]) hle
-
-theorem lit_inv (hw : fl.wide = false) (hn : fl.nocase = false) {b : UInt8} {p q' : Nat} (h : Re.Matches fl buf (.lit b) p q') :
-    q' = p + 1 ∧ ∃ c, buf[p]? = some c ∧ c &&& 0xFF = b := by
-  cases h with
-  | lit hc =>
-    refine ⟨by simp [Flags.cs, hw], ?_⟩
-    unfold charOk at hc
-    split at hc
-    · simp at hc
-    · rename_i c hcb
-      simp only [hw, Bool.false_eq_true, if_false, testLit, hn] at hc
-      have hcb' : c = b := by simpa using hc
-      subst hcb'
-      exact ⟨c, hcb, and_255 c⟩
-
-theorem masked_inv (hw : fl.wide = false) {v m : UInt8} {p q' : Nat} (h : Re.Matches fl buf (.masked v m) p q') :
-    q' = p + 1 ∧ ∃ c, buf[p]? = some c ∧ c &&& m = v := by
-  cases h with
-  | masked hc =>
-    refine ⟨by simp [Flags.cs, hw], ?_⟩
-    unfold charOk at hc
-    split at hc
-    · simp at hc
-    · rename_i c hcb
-      simp only [hw, Bool.false_eq_true, if_false, testMasked] at hc
-      exact ⟨c, hcb, by simpa using hc⟩
-
-theorem any_inv (hw : fl.wide = false) {p q' : Nat} (h : Re.Matches fl buf .any p q') :
-    q' = p + 1 ∧ ∃ c, buf[p]? = some c ∧ c &&& 0 = 0 := by
-  cases h with
-  | any hc =>
-    refine ⟨by simp [Flags.cs, hw], ?_⟩
-    unfold charOk at hc
-    split at hc
-    · simp at hc
-    · rename_i c hcb
-      exact ⟨c, hcb, by simp⟩
-
-theorem range_inv {a : Re} {lo hi : Nat} {g : Bool} {p q' : Nat} (h : Re.Matches fl buf (.range a lo hi g) p q') (hlo : 0 < lo) :
-    ∃ t, Re.Matches fl buf a p t ∧ Re.Matches fl buf (.range a (lo - 1) (hi - 1) g) t q' := by
-  cases h with
-  | rangeStop => omega
-  | rangeStep _ h1 h2 => exact ⟨_, h1, h2⟩
-
-theorem plus_inv {a : Re} {g : Bool} {p q' : Nat} (h : Re.Matches fl buf (.plus a g) p q') :
-    ∃ t, Re.Matches fl buf a p t ∧ t ≤ q' := by
-  cases h with
-  | plusOne h1 => exact ⟨_, h1, Nat.le_refl _⟩
-  | plusStep h1 h2 => exact ⟨_, h1, (Matches.bounds h2).1⟩
-
-/-- walking an expression along one of its matches keeps the invariant (byte mode, case-sensitive) -/
-theorem walk_inv (hw : fl.wide = false) (hn : fl.nocase = false) : ∀ (r : Re) (i : Nat) (st : St) (p0 cur q1 : Nat),
-    Inv buf st p0 cur → Re.Matches fl buf r cur q1 → Inv buf (walk q r i st) p0 q1 := by
-  intro r
-  induction r with
-  | lit b =>
-    intro i st p0 cur q1 hi hm
-    obtain ⟨e, hc⟩ := lit_inv hw hn hm
-    subst e; simp only [walk]; exact inv_addNode q hi _ hc
-  | masked v m =>
-    intro i st p0 cur q1 hi hm
-    obtain ⟨e, hc⟩ := masked_inv hw hm
-    subst e; simp only [walk]; exact inv_addNode q hi _ hc
-  | any =>
-    intro i st p0 cur q1 hi hm
-    obtain ⟨e, hc⟩ := any_inv hw hm
-    subst e; simp only [walk]; exact inv_addNode q hi _ hc
-  | cat a b iha ihb =>
-    intro i st p0 cur q1 hi hm
-    cases hm with
-    | cat h1 h2 => simp only [walk]; exact ihb _ _ _ _ _ (iha _ _ _ _ _ hi h1) h2
-  | alt a b iha ihb =>
-    intro i st p0 cur q1 hi hm
-    have hb := (Matches.bounds hm).1
-    simp only [walk]
-    have hand : Sat buf p0 q1 (.and [.or (flush q (walk q a i {})).kids, .or (flush q (walk q b (i + leaves a) {})).kids]) := by
-      unfold Sat SatAny
-      cases hm with
-      | altL h1 =>
-        left; unfold Sat
-        exact SatAll.mono hi.le (Nat.le_refl _) _ (inv_flush q (iha _ _ _ _ _ (inv_init cur) h1)).kids
-      | altR h1 =>
-        right; unfold SatAny; left; unfold Sat
-        exact SatAll.mono hi.le (Nat.le_refl _) _ (inv_flush q (ihb _ _ _ _ _ (inv_init cur) h1)).kids
-    exact inv_flush_with q hi hb _ hand
-  | plus a g ih =>
-    intro i st p0 cur q1 hi hm
-    obtain ⟨t, h1, h2⟩ := plus_inv hm
-    simp only [walk]
-    exact inv_flush_move q (ih _ _ _ _ _ hi h1) h2
-  | range a lo hi g ih =>
-    intro i st p0 cur q1 hi' hm
-    simp only [walk]
-    -- the first min(lo, 4) iterations are consecutive copies of the body
-    have key : ∀ (n : Nat) (st : St) (cur lo' hi' : Nat), n ≤ lo' → Inv buf st p0 cur → Re.Matches fl buf (.range a lo' hi' g) cur q1 →
-        ∃ t, t ≤ q1 ∧ Inv buf (iter (walk q a i) n st) p0 t := by
-      intro n
-      induction n with
-      | zero => intro st cur lo' hi' _ h1 h2; exact ⟨cur, (Matches.bounds h2).1, h1⟩
-      | succ k ihk =>
-        intro st cur lo' hi' hle h1 h2
-        obtain ⟨t, m1, m2⟩ := range_inv h2 (by omega)
-        simp only [iter]
-        exact ihk _ t (lo' - 1) (hi' - 1) (by omega) (ih _ _ _ _ _ h1 m1) m2
-    obtain ⟨t, ht, hinv⟩ := key (min lo 4) st cur lo hi (Nat.min_le_left _ _) hi' hm
-    exact inv_flush_move q hinv ht
-  | star a g _ => intro i st p0 cur q1 hi hm; simp only [walk]; exact inv_flush_move q hi (Matches.bounds hm).1
-  | rangeAny lo hi g => intro i st p0 cur q1 hi' hm; simp only [walk]; exact inv_flush_move q hi' (Matches.bounds hm).1
-  | notLit b => intro i st p0 cur q1 hi hm; simp only [walk]; exact inv_flush_move q hi (Matches.bounds hm).1
-  | maskedNot v m => intro i st p0 cur q1 hi hm; simp only [walk]; exact inv_flush_move q hi (Matches.bounds hm).1
-  | cls bm neg => intro i st p0 cur q1 hi hm; simp only [walk]; exact inv_flush_move q hi (Matches.bounds hm).1
-  | wordCh => intro i st p0 cur q1 hi hm; simp only [walk]; exact inv_flush_move q hi (Matches.bounds hm).1
-  | nonWordCh => intro i st p0 cur q1 hi hm; simp only [walk]; exact inv_flush_move q hi (Matches.bounds hm).1
-  | space => intro i st p0 cur q1 hi hm; simp only [walk]; exact inv_flush_move q hi (Matches.bounds hm).1
-  | nonSpace => intro i st p0 cur q1 hi hm; simp only [walk]; exact inv_flush_move q hi (Matches.bounds hm).1
-  | digit => intro i st p0 cur q1 hi hm; simp only [walk]; exact inv_flush_move q hi (Matches.bounds hm).1
-  | nonDigit => intro i st p0 cur q1 hi hm; simp only [walk]; exact inv_flush_move q hi (Matches.bounds hm).1
-  | empty => intro i st p0 cur q1 hi hm; simp only [walk]; exact inv_flush_move q hi (Matches.bounds hm).1
-  | bol => intro i st p0 cur q1 hi hm; simp only [walk]; exact inv_flush_move q hi (Matches.bounds hm).1
-  | eol => intro i st p0 cur q1 hi hm; simp only [walk]; exact inv_flush_move q hi (Matches.bounds hm).1
-  | wordB => intro i st p0 cur q1 hi hm; simp only [walk]; exact inv_flush_move q hi (Matches.bounds hm).1
-  | nonWordB => intro i st p0 cur q1 hi hm; simp only [walk]; exact inv_flush_move q hi (Matches.bounds hm).1
-
 theorem chooseOr_nil_or_pos : ∀ (kids : List Tree) (acc : List Atom) (mx : Int), 0 ≤ mx → (acc = [] ∨ mx > 0) →
     ((chooseOr q kids acc mx).1 = [] ∨ (chooseOr q kids acc mx).2 > 0)
   | [], acc, mx, _, h => by unfold chooseOr; exact h
@@ -419,19 +203,369 @@ theorem chooseOr_nil_or_pos : ∀ (kids : List Tree) (acc : List Atom) (mx : Int
         exact chooseOr_nil_or_pos ts _ _ (by omega) (.inr (by omega))
       · simp only [hgt, if_false]; exact chooseOr_nil_or_pos ts acc mx h0 h
 
-/-- **Cover.** For every quality function (every choice the heuristic can make), in byte mode without nocase: every match
-    [p, q') of the expression contains an occurrence of one of the chosen (masked) atoms — unless no atom at all was chosen,
-    in which case the string gets the zero-length atom that is reported at every offset. -/
-theorem chosen_cover (hw : fl.wide = false) (hn : fl.nocase = false) (r : Re) {p q' : Nat} (hm : Re.Matches fl buf r p q') :
-    chosen q r = [] ∨ ∃ a ∈ chosen q r, Occurs buf a p q' := by
+/-! ### the state of the walk along a match -/
+/-- state of the walk after the part [p0, cur) of a match: every appended child is witnessed there, the pending run ends at
+    `cur` (or is frozen because the best quality is already maximal), the best atom so far occurs -/
+structure Inv (R : Rd) (st : St) (p0 cur : Nat) : Prop where
+  le : p0 ≤ cur
+  kids : SatAll R p0 cur st.kids
+  recent : (span R st.recent ≤ cur - p0 ∧ AtomAt R st.recent (cur - span R st.recent)) ∨
+    (255 ≤ st.bestQ ∧ 4 ≤ st.recent.length ∧ Occurs R st.recent p0 cur)
+  best : Occurs R st.best p0 cur
+
+theorem Inv.recentOccurs {st : St} {p0 cur : Nat} (h : Inv R st p0 cur) : Occurs R st.recent p0 cur := by
+  rcases h.recent with ⟨h1, h2⟩ | ⟨_, _, h3⟩
+  · exact ⟨cur - span R st.recent, by have := h.le; omega, by have := h.le; omega, h2⟩
+  · exact h3
+
+theorem inv_init (p : Nat) : Inv R {} p p :=
+  ⟨Nat.le_refl _, by simp [SatAll], .inl ⟨by simp [span_nil], by simp [AtomAt]⟩, occurs_nil (Nat.le_refl _)⟩
+
+theorem inv_flush {st : St} {p0 cur : Nat} (h : Inv R st p0 cur) : Inv R (flush q st) p0 cur := by
+  refine ⟨h.le, ?_, .inl ⟨by simp [flush, span_nil], by simp [flush, AtomAt]⟩, by simp only [flush]; exact occurs_nil h.le⟩
+  unfold flush
+  simp only
+  split
+  · exact h.kids
+  · rw [satAll_append]
+    refine ⟨h.kids, ?_, trivial⟩
+    unfold Sat
+    split
+    · exact occurs_trim h.recentOccurs
+    · exact h.best
+
+theorem inv_move {st : St} {p0 cur cur' : Nat} (h : Inv R st p0 cur) (he : st.recent = []) (hle : cur ≤ cur') : Inv R st p0 cur' := by
+  refine ⟨by have := h.le; omega, SatAll.mono (Nat.le_refl _) hle _ h.kids, .inl ?_, h.best.mono (Nat.le_refl _) hle⟩
+  rw [he]; simp [AtomAt, span_nil]
+
+theorem inv_addNode {st : St} {p0 cur : Nat} (h : Inv R st p0 cur) (x : Node) (hx : R.ok x cur) :
+    Inv R (addNode q st x) p0 (cur + R.cs) := by
+  have hle := h.le
+  unfold addNode
+  by_cases h4 : st.recent.length < 4
+  · simp only [h4, if_true]
+    rcases h.recent with ⟨h1, h2⟩ | ⟨_, h2, _⟩
+    · have hs1 : span R (st.recent ++ [x]) = span R st.recent + R.cs := by rw [span_append, span_cons, span_nil]; omega
+      refine ⟨by omega, SatAll.mono (Nat.le_refl _) (by omega) _ h.kids,
+        .inl ⟨by show span R (st.recent ++ [x]) ≤ cur + R.cs - p0; omega, ?_⟩, h.best.mono (Nat.le_refl _) (by omega)⟩
+      show AtomAt R (st.recent ++ [x]) (cur + R.cs - span R (st.recent ++ [x]))
+      have e1 : cur + R.cs - span R (st.recent ++ [x]) = cur - span R st.recent := by omega
+      rw [e1, atomAt_append]
+      refine ⟨h2, ?_, trivial⟩
+      have e2 : cur - span R st.recent + span R st.recent = cur := by omega
+      rw [e2]; exact hx
+    · omega
+  · simp only [h4, if_false]
+    by_cases hq : st.bestQ < 255
+    · simp only [hq, if_true]
+      rcases h.recent with ⟨h1, h2⟩ | ⟨h1, _, _⟩
+      · have hocc : Occurs R (trim st.recent).2 p0 (cur + R.cs) := (occurs_trim h.recentOccurs).mono (Nat.le_refl _) (by omega)
+        have hsplit := span_take_drop (R := R) st.recent 1
+        have hone : span R (st.recent.take 1) = R.cs := by
+          cases hr : st.recent with
+          | nil => rw [hr] at h4; simp at h4
+          | cons y t => simp [span]
+        have hs1 : span R (st.recent.drop 1 ++ [x]) = span R (st.recent.drop 1) + R.cs := by rw [span_append, span_cons, span_nil]; omega
+        have hrec : span R (st.recent.drop 1 ++ [x]) ≤ cur + R.cs - p0 ∧ AtomAt R (st.recent.drop 1 ++ [x]) (cur + R.cs - span R (st.recent.drop 1 ++ [x])) := by
+          refine ⟨by omega, ?_⟩
+          have e1 : cur + R.cs - span R (st.recent.drop 1 ++ [x]) = cur - span R st.recent + span R (st.recent.take 1) := by omega
+          rw [e1, atomAt_append]
+          refine ⟨atomAt_drop h2 1, ?_, trivial⟩
+          have e2 : cur - span R st.recent + span R (st.recent.take 1) + span R (st.recent.drop 1) = cur := by omega
+          rw [e2]; exact hx
+        split
+        · exact ⟨by omega, SatAll.mono (Nat.le_refl _) (by omega) _ h.kids, .inl hrec, hocc⟩
+        · exact ⟨by omega, SatAll.mono (Nat.le_refl _) (by omega) _ h.kids, .inl hrec, h.best.mono (Nat.le_refl _) (by omega)⟩
+      · omega
+    · simp only [hq, if_false]
+      exact ⟨by omega, SatAll.mono (Nat.le_refl _) (by omega) _ h.kids,
+        .inr ⟨by omega, by omega, h.recentOccurs.mono (Nat.le_refl _) (by omega)⟩, h.best.mono (Nat.le_refl _) (by omega)⟩
+
+/-- a child witnessed in the part of the match that follows is appended, then the pending run is flushed -/
+theorem inv_flush_with {st : St} {p0 cur q1 : Nat} (h : Inv R st p0 cur) (hle : cur ≤ q1) (T : Tree) (hT : Sat R p0 q1 T) :
+    Inv R (flush q { st with kids := st.kids ++ [T] }) p0 q1 := by
+  have h1 := h.le
+  refine ⟨by omega, ?_, .inl ⟨by simp [flush, span_nil], by simp [flush, AtomAt]⟩, by simp only [flush]; exact occurs_nil (by omega)⟩
+  unfold flush
+  simp only
+  have hk : SatAll R p0 q1 (st.kids ++ [T]) := by
+    rw [satAll_append]; exact ⟨SatAll.mono (Nat.le_refl _) hle _ h.kids, hT, trivial⟩
+  split
+  · exact hk
+  · rw [satAll_append]
+    refine ⟨hk, ?_, trivial⟩
+    unfold Sat
+    split
+    · exact (occurs_trim h.recentOccurs).mono (Nat.le_refl _) hle
+    · exact h.best.mono (Nat.le_refl _) hle
+
+/-- the pending run is flushed, then the match goes on to `q1` through something that is not part of any run -/
+theorem inv_flush_move {st : St} {p0 cur q1 : Nat} (h : Inv R st p0 cur) (hle : cur ≤ q1) : Inv R (flush q st) p0 q1 :=
+  inv_move (inv_flush q h) (by simp [flush]) hle
+
+end
+
+
+/-! ### matches with their trace: which atom-capable leaf (id) was matched at which position -/
+/-- nodes the walk does not descend into and that end a run -/
+def Opaque : Re → Bool
+  | .lit _ | .masked _ _ | .any | .cat _ _ | .alt _ _ | .plus _ _ | .range _ _ _ _ => false
+  | _ => true
+
+inductive Tr (fl : Flags) (buf : Bytes) : Re → Nat → Nat → Nat → List (Nat × Nat) → Prop
+  | lit {b i p q} : Re.Matches fl buf (.lit b) p q → Tr fl buf (.lit b) i p q [(i, p)]
+  | masked {v m i p q} : Re.Matches fl buf (.masked v m) p q → Tr fl buf (.masked v m) i p q [(i, p)]
+  | any {i p q} : Re.Matches fl buf .any p q → Tr fl buf .any i p q [(i, p)]
+  | opq {r i p q} : Opaque r = true → Re.Matches fl buf r p q → Tr fl buf r i p q []
+  | cat {a b i p t q t1 t2} : Tr fl buf a i p t t1 → Tr fl buf b (i + leaves a) t q t2 → Tr fl buf (.cat a b) i p q (t1 ++ t2)
+  | altL {a b i p q t1} : Tr fl buf a i p q t1 → Tr fl buf (.alt a b) i p q t1
+  | altR {a b i p q t1} : Tr fl buf b (i + leaves a) p q t1 → Tr fl buf (.alt a b) i p q t1
+  | plusOne {a g i p q t1} : Tr fl buf a i p q t1 → Tr fl buf (.plus a g) i p q t1
+  | plusStep {a g i p t q t1} : Tr fl buf a i p t t1 → Re.Matches fl buf (.plus a g) t q → Tr fl buf (.plus a g) i p q t1
+  | rangeStop {a hi g i p} : Tr fl buf (.range a 0 hi g) i p p []
+  | rangeStep {a lo hi g i p t q t1 t2} : 0 < hi → Tr fl buf a i p t t1 → Tr fl buf (.range a (lo - 1) (hi - 1) g) i t q t2 →
+      Tr fl buf (.range a lo hi g) i p q (t1 ++ t2)
+
+section
+variable {fl : Flags} {buf : Bytes}
+
+/-- every match has a trace -/
+theorem tr_of_matches {r : Re} {p q : Nat} (h : Re.Matches fl buf r p q) : ∀ i, ∃ tr, Tr fl buf r i p q tr := by
+  induction h with
+  | lit hc => intro i; exact ⟨_, .lit (.lit hc)⟩
+  | masked hc => intro i; exact ⟨_, .masked (.masked hc)⟩
+  | any hc => intro i; exact ⟨_, .any (.any hc)⟩
+  | notLit hc => intro i; exact ⟨_, .opq rfl (.notLit hc)⟩
+  | maskedNot hc => intro i; exact ⟨_, .opq rfl (.maskedNot hc)⟩
+  | cls hc => intro i; exact ⟨_, .opq rfl (.cls hc)⟩
+  | wordCh hc => intro i; exact ⟨_, .opq rfl (.wordCh hc)⟩
+  | nonWordCh hc => intro i; exact ⟨_, .opq rfl (.nonWordCh hc)⟩
+  | space hc => intro i; exact ⟨_, .opq rfl (.space hc)⟩
+  | nonSpace hc => intro i; exact ⟨_, .opq rfl (.nonSpace hc)⟩
+  | digit hc => intro i; exact ⟨_, .opq rfl (.digit hc)⟩
+  | nonDigit hc => intro i; exact ⟨_, .opq rfl (.nonDigit hc)⟩
+  | empty => intro i; exact ⟨_, .opq rfl .empty⟩
+  | cat _ _ ih1 ih2 =>
+    intro i
+    obtain ⟨t1, h1⟩ := ih1 i
+    obtain ⟨t2, h2⟩ := ih2 _
+    exact ⟨_, .cat h1 h2⟩
+  | altL _ ih => intro i; obtain ⟨t1, h1⟩ := ih i; exact ⟨_, .altL h1⟩
+  | altR _ ih => intro i; obtain ⟨t1, h1⟩ := ih _; exact ⟨_, .altR h1⟩
+  | starNil => intro i; exact ⟨_, .opq rfl .starNil⟩
+  | starStep h1 h2 _ _ => intro i; exact ⟨_, .opq rfl (.starStep h1 h2)⟩
+  | plusOne _ ih => intro i; obtain ⟨t1, h1⟩ := ih i; exact ⟨_, .plusOne h1⟩
+  | plusStep _ h2 ih _ => intro i; obtain ⟨t1, h1⟩ := ih i; exact ⟨_, .plusStep h1 h2⟩
+  | rangeStop => intro i; exact ⟨_, .rangeStop⟩
+  | rangeStep hpos _ _ ih1 ih2 =>
+    intro i
+    obtain ⟨t1, h1⟩ := ih1 i
+    obtain ⟨t2, h2⟩ := ih2 i
+    exact ⟨_, .rangeStep hpos h1 h2⟩
+  | rangeAnyStop => intro i; exact ⟨_, .opq rfl .rangeAnyStop⟩
+  | rangeAnyStep hpos hc h2 _ => intro i; exact ⟨_, .opq rfl (.rangeAnyStep hpos hc h2)⟩
+  | bol => intro i; exact ⟨_, .opq rfl .bol⟩
+  | eol => intro i; exact ⟨_, .opq rfl .eol⟩
+  | wordB hb => intro i; exact ⟨_, .opq rfl (.wordB hb)⟩
+  | nonWordB hb => intro i; exact ⟨_, .opq rfl (.nonWordB hb)⟩
+
+/-- the traced match is a match -/
+theorem Tr.matches {r : Re} {i p q : Nat} {tr : List (Nat × Nat)} (h : Tr fl buf r i p q tr) : Re.Matches fl buf r p q := by
+  induction h with
+  | lit h | masked h | any h => exact h
+  | opq _ h => exact h
+  | cat _ _ ih1 ih2 => exact .cat ih1 ih2
+  | altL _ ih => exact .altL ih
+  | altR _ ih => exact .altR ih
+  | plusOne _ ih => exact .plusOne ih
+  | plusStep _ h2 ih => exact .plusStep ih h2
+  | rangeStop => exact .rangeStop
+  | rangeStep hp _ _ ih1 ih2 => exact .rangeStep hp ih1 ih2
+
+/-- node `n` sits at byte position `s`: the character there (in wide mode with a zero high byte) has the node's value under
+    its mask — or, for nocase strings, the same letter in the other case -/
+def NodeOk (fl : Flags) (buf : Bytes) (n : Node) (s : Nat) : Prop :=
+  ∃ c, buf[s]? = some c ∧ (fl.wide = true → buf[s + 1]? = some 0) ∧
+    (c &&& n.mask = n.byte ∨ (fl.nocase = true ∧ n.mask = 0xFF ∧ lower c = lower n.byte))
+
+/-- the masks of hex strings and regular expressions: a byte, `??`, or one nibble -/
+def MaskGood (m : UInt8) : Prop := m = 0xFF ∨ m = 0x00 ∨ m = 0x0F ∨ m = 0xF0
+
+/-- every masked node of the expression has such a mask (hex_grammar.y produces no others) -/
+def MaskOK : Re → Prop
+  | .masked _ m => MaskGood m
+  | .cat a b => MaskOK a ∧ MaskOK b
+  | .alt a b => MaskOK a ∧ MaskOK b
+  | .star a _ => MaskOK a
+  | .plus a _ => MaskOK a
+  | .range a _ _ _ => MaskOK a
+  | _ => True
+
+/-- how the nodes of the atoms sit in the buffer along a match with trace `T` -/
+def rdOf (fl : Flags) (buf : Bytes) (T : List (Nat × Nat)) : Rd :=
+  { cs := fl.cs, ok := fun n s => NodeOk fl buf n s ∧ (n.id, s) ∈ T ∧ MaskGood n.mask }
+
+theorem and_255 (c : UInt8) : c &&& 0xFF = c := by
+  apply UInt8.eq_of_toBitVec_eq
+  simp only [UInt8.toBitVec_and]
+  have : (255 : UInt8).toBitVec = BitVec.allOnes 8 := by decide
+  rw [this, BitVec.and_allOnes]
+
+theorem charOk_inv {t : UInt8 → Bool} {p : Nat} (h : charOk fl buf t p = true) :
+    ∃ c, buf[p]? = some c ∧ (fl.wide = true → buf[p + 1]? = some 0) ∧ t c = true := by
+  unfold charOk at h
+  split at h
+  · simp at h
+  · rename_i c hc
+    by_cases hw : fl.wide = true
+    · simp only [hw, if_true] at h
+      split at h
+      · rename_i z hz
+        simp only [Bool.and_eq_true, beq_iff_eq] at h
+        exact ⟨c, hc, fun _ => by rw [hz, h.1], h.2⟩
+      · simp at h
+    · simp only [hw] at h
+      exact ⟨c, hc, fun hh => absurd hh hw, h⟩
+
+theorem lit_ok {b : UInt8} {p q : Nat} (i : Nat) (h : Re.Matches fl buf (.lit b) p q) : q = p + fl.cs ∧ NodeOk fl buf ⟨b, 0xFF, i⟩ p := by
+  cases h with
+  | lit hc =>
+    refine ⟨rfl, ?_⟩
+    obtain ⟨c, h1, h2, h3⟩ := charOk_inv hc
+    refine ⟨c, h1, h2, ?_⟩
+    unfold testLit at h3
+    by_cases hn : fl.nocase = true
+    · simp only [hn, if_true, beq_iff_eq] at h3
+      exact .inr ⟨hn, rfl, h3⟩
+    · have hn' : fl.nocase = false := by cases hh : fl.nocase <;> simp_all
+      simp only [hn', Bool.false_eq_true, if_false, beq_iff_eq] at h3
+      left; simp only; rw [and_255]; exact h3
+
+theorem masked_ok {v m : UInt8} {p q : Nat} (i : Nat) (h : Re.Matches fl buf (.masked v m) p q) : q = p + fl.cs ∧ NodeOk fl buf ⟨v, m, i⟩ p := by
+  cases h with
+  | masked hc =>
+    refine ⟨rfl, ?_⟩
+    obtain ⟨c, h1, h2, h3⟩ := charOk_inv hc
+    exact ⟨c, h1, h2, .inl (by simpa [testMasked] using h3)⟩
+
+theorem any_ok {p q : Nat} (i : Nat) (h : Re.Matches fl buf .any p q) : q = p + fl.cs ∧ NodeOk fl buf ⟨0, 0, i⟩ p := by
+  cases h with
+  | any hc =>
+    refine ⟨rfl, ?_⟩
+    obtain ⟨c, h1, h2, _⟩ := charOk_inv hc
+    exact ⟨c, h1, h2, .inl (by simp)⟩
+
+variable (q : Atom → Int)
+
+/-- walking an expression along one of its traced matches keeps the invariant -/
+theorem walk_inv (T : List (Nat × Nat)) : ∀ (r : Re) (i : Nat) (st : St) (p0 cur q1 : Nat) (tr : List (Nat × Nat)),
+    MaskOK r → Inv (rdOf fl buf T) st p0 cur → Tr fl buf r i cur q1 tr → (∀ e ∈ tr, e ∈ T) → Inv (rdOf fl buf T) (walk q r i st) p0 q1 := by
+  intro r
+  induction r with
+  | lit b =>
+    intro i st p0 cur q1 tr hmk hi ht hsub
+    cases ht with
+    | lit hm =>
+      obtain ⟨e, hc⟩ := lit_ok i hm
+      subst e; simp only [walk]
+      exact inv_addNode q hi _ ⟨hc, hsub _ (by simp), .inl rfl⟩
+    | opq ho _ => simp [Opaque] at ho
+  | masked v m =>
+    intro i st p0 cur q1 tr hmk hi ht hsub
+    cases ht with
+    | masked hm =>
+      obtain ⟨e, hc⟩ := masked_ok i hm
+      subst e; simp only [walk]
+      exact inv_addNode q hi _ ⟨hc, hsub _ (by simp), hmk⟩
+    | opq ho _ => simp [Opaque] at ho
+  | any =>
+    intro i st p0 cur q1 tr hmk hi ht hsub
+    cases ht with
+    | any hm =>
+      obtain ⟨e, hc⟩ := any_ok i hm
+      subst e; simp only [walk]
+      exact inv_addNode q hi _ ⟨hc, hsub _ (by simp), .inr (.inl rfl)⟩
+    | opq ho _ => simp [Opaque] at ho
+  | cat a b iha ihb =>
+    intro i st p0 cur q1 tr hmk hi ht hsub
+    cases ht with
+    | cat h1 h2 =>
+      simp only [walk]
+      exact ihb _ _ _ _ _ _ hmk.2 (iha _ _ _ _ _ _ hmk.1 hi h1 (fun e he => hsub e (List.mem_append_left _ he))) h2
+        (fun e he => hsub e (List.mem_append_right _ he))
+    | opq ho _ => simp [Opaque] at ho
+  | alt a b iha ihb =>
+    intro i st p0 cur q1 tr hmk hi ht hsub
+    have hb := (Matches.bounds ht.matches).1
+    simp only [walk]
+    have hand : Sat (rdOf fl buf T) p0 q1 (.and [.or (flush q (walk q a i {})).kids, .or (flush q (walk q b (i + leaves a) {})).kids]) := by
+      unfold Sat SatAny
+      cases ht with
+      | altL h1 =>
+        left; unfold Sat
+        exact SatAll.mono hi.le (Nat.le_refl _) _ (inv_flush q (iha _ _ _ _ _ _ hmk.1 (inv_init cur) h1 hsub)).kids
+      | altR h1 =>
+        right; unfold SatAny; left; unfold Sat
+        exact SatAll.mono hi.le (Nat.le_refl _) _ (inv_flush q (ihb _ _ _ _ _ _ hmk.2 (inv_init cur) h1 hsub)).kids
+      | opq ho _ => simp [Opaque] at ho
+    exact inv_flush_with q hi hb _ hand
+  | plus a g ih =>
+    intro i st p0 cur q1 tr hmk hi ht hsub
+    simp only [walk]
+    cases ht with
+    | plusOne h1 => exact inv_flush q (ih _ _ _ _ _ _ hmk hi h1 hsub)
+    | plusStep h1 h2 => exact inv_flush_move q (ih _ _ _ _ _ _ hmk hi h1 hsub) (Matches.bounds h2).1
+    | opq ho _ => simp [Opaque] at ho
+  | range a lo hi g ih =>
+    intro i st p0 cur q1 tr hmk hi' ht hsub
+    simp only [walk]
+    -- the first min(lo, 4) iterations are consecutive copies of the body
+    have key : ∀ (n : Nat) (st : St) (cur lo' hi' : Nat) (tr : List (Nat × Nat)), n ≤ lo' → Inv (rdOf fl buf T) st p0 cur →
+        Tr fl buf (.range a lo' hi' g) i cur q1 tr → (∀ e ∈ tr, e ∈ T) →
+        ∃ t, t ≤ q1 ∧ Inv (rdOf fl buf T) (iter (walk q a i) n st) p0 t := by
+      intro n
+      induction n with
+      | zero => intro st cur lo' hi' tr _ h1 h2 _; exact ⟨cur, (Matches.bounds h2.matches).1, h1⟩
+      | succ k ihk =>
+        intro st cur lo' hi' tr hle h1 h2 hs
+        cases h2 with
+        | rangeStop => omega
+        | rangeStep _ m1 m2 =>
+          simp only [iter]
+          exact ihk _ _ (lo' - 1) (hi' - 1) _ (by omega) (ih _ _ _ _ _ _ hmk h1 m1 (fun e he => hs e (List.mem_append_left _ he))) m2
+            (fun e he => hs e (List.mem_append_right _ he))
+        | opq ho _ => simp [Opaque] at ho
+    obtain ⟨t, ht', hinv⟩ := key (min lo 4) st cur lo hi tr (Nat.min_le_left _ _) hi' ht hsub
+    exact inv_flush_move q hinv ht'
+  | star a g _ => intro i st p0 cur q1 tr _ hi ht _; simp only [walk]; exact inv_flush_move q hi (Matches.bounds ht.matches).1
+  | rangeAny lo hi g => intro i st p0 cur q1 tr _ hi' ht _; simp only [walk]; exact inv_flush_move q hi' (Matches.bounds ht.matches).1
+  | notLit b => intro i st p0 cur q1 tr _ hi ht _; simp only [walk]; exact inv_flush_move q hi (Matches.bounds ht.matches).1
+  | maskedNot v m => intro i st p0 cur q1 tr _ hi ht _; simp only [walk]; exact inv_flush_move q hi (Matches.bounds ht.matches).1
+  | cls bm neg => intro i st p0 cur q1 tr _ hi ht _; simp only [walk]; exact inv_flush_move q hi (Matches.bounds ht.matches).1
+  | wordCh => intro i st p0 cur q1 tr _ hi ht _; simp only [walk]; exact inv_flush_move q hi (Matches.bounds ht.matches).1
+  | nonWordCh => intro i st p0 cur q1 tr _ hi ht _; simp only [walk]; exact inv_flush_move q hi (Matches.bounds ht.matches).1
+  | space => intro i st p0 cur q1 tr _ hi ht _; simp only [walk]; exact inv_flush_move q hi (Matches.bounds ht.matches).1
+  | nonSpace => intro i st p0 cur q1 tr _ hi ht _; simp only [walk]; exact inv_flush_move q hi (Matches.bounds ht.matches).1
+  | digit => intro i st p0 cur q1 tr _ hi ht _; simp only [walk]; exact inv_flush_move q hi (Matches.bounds ht.matches).1
+  | nonDigit => intro i st p0 cur q1 tr _ hi ht _; simp only [walk]; exact inv_flush_move q hi (Matches.bounds ht.matches).1
+  | empty => intro i st p0 cur q1 tr _ hi ht _; simp only [walk]; exact inv_flush_move q hi (Matches.bounds ht.matches).1
+  | bol => intro i st p0 cur q1 tr _ hi ht _; simp only [walk]; exact inv_flush_move q hi (Matches.bounds ht.matches).1
+  | eol => intro i st p0 cur q1 tr _ hi ht _; simp only [walk]; exact inv_flush_move q hi (Matches.bounds ht.matches).1
+  | wordB => intro i st p0 cur q1 tr _ hi ht _; simp only [walk]; exact inv_flush_move q hi (Matches.bounds ht.matches).1
+  | nonWordB => intro i st p0 cur q1 tr _ hi ht _; simp only [walk]; exact inv_flush_move q hi (Matches.bounds ht.matches).1
+
+/-- **Cover, masked atoms.** For every quality function: along a traced match [p, q') of the expression, one of the chosen
+    atoms sits inside [p, q') on nodes of the trace — unless no atom at all was chosen (the zero-length atom applies). -/
+theorem chosen_cover (r : Re) (hmk : MaskOK r) {p q' : Nat} {T : List (Nat × Nat)} (hm : Tr fl buf r 0 p q' T) :
+    chosen q r = [] ∨ ∃ a ∈ chosen q r, Occurs (rdOf fl buf T) a p q' := by
   have hcase : (choose q (treeOf q r)).1 = [] ∨ (choose q (treeOf q r)).2 > 0 := by
     unfold treeOf choose
     exact chooseOr_nil_or_pos q _ [] 0 (Int.le_refl _) (.inl rfl)
   rcases hcase with h0 | hq
   · left; exact h0
   · right
-    have hinv := inv_flush q (walk_inv q hw hn r 0 {} p p q' (inv_init p) hm)
-    have hs : Sat buf p q' (treeOf q r) := by unfold treeOf Sat; exact hinv.kids
+    have hinv := inv_flush q (walk_inv q T r 0 {} p p q' T hmk (inv_init p) hm (fun e he => he))
+    have hs : Sat (rdOf fl buf T) p q' (treeOf q r) := by unfold treeOf Sat; exact hinv.kids
     exact choose_occurs q _ hs hq
 
 end
